@@ -115,7 +115,9 @@ def run(ctx):
         specs |= {polyspec([64], a + 3)} if rnd.random() < 0.5 else {polyspec([5, 3], a + 4)}
     consts = {"K": K, "Types": set('"%s"' % t for t in ALL_TYPES), "VA": va, "PolySpecs": specs,
               "LoopLens": {0, 1, 3} if q else {0, 1, 2, 3, 7}, "LineLens": {0, 2} if q else {0, 1, 2, 5},
-              "UnionLens": {0, 2} if q else {0, 1, 3, 5}, "Double": False}
+              "UnionLens": {0, 2} if q else {0, 1, 3, 5},
+              "ManySpecs": {1300 + rnd.randint(2, 12)} if q else {1300 + rnd.randint(2, 12), 1401, 2000 + rnd.randint(2, 19)},
+              "Double": False}
     # 1. every single mutation of every base
     r = ctx.tlc("Gen_WireMut", vlib.cfg(constants=consts, invariants=INV), workers=8, timeout=1500, heap="6g")
     cases = thin(join(r), rnd, 1 if q else 3)
@@ -126,7 +128,7 @@ def run(ctx):
     va2 = alphabet(rnd, K, 12)
     specs2 = {polyspec([rnd.randint(1, 9) for _ in range(rnd.randint(1, 3))], rnd.randrange(1, 90)) for _ in range(4)}
     specs2 |= {polyspec([rnd.randint(64, 70)], rnd.randrange(1, 90))}
-    consts2 = dict(consts, VA=va2, PolySpecs=specs2, Double=True)
+    consts2 = dict(consts, VA=va2, PolySpecs=specs2, ManySpecs={1300 + rnd.randint(2, 12)}, Double=True)
     nsim = 600 if q else 6000
     r = ctx.tlc("Gen_WireMut", vlib.cfg(constants=consts2, invariants=INV), workers=1 if q else 4,
                 simulate="num=%d" % nsim, depth=600, seed=ctx.seed * 100 + 15, timeout=1500, heap="6g")
